@@ -5,7 +5,7 @@ from __future__ import annotations
 from fractions import Fraction
 from typing import Iterable, Sequence
 
-CLUSTER_NS = 1e-6  # points closer than this are one point (a femtosecond)
+REL_TOL = 1e-10  # calendar points closer than this (relative to the duration) are one point
 
 
 def grid(T: float, dt: float) -> list[float]:
@@ -13,12 +13,12 @@ def grid(T: float, dt: float) -> list[float]:
     Tq, dq = Fraction(T), Fraction(dt)
     n = int(Tq // dq)
     pts = [float(k * dq) for k in range(n + 1)]
-    if not pts or abs(pts[-1] - T) > CLUSTER_NS:
+    if not pts or abs(pts[-1] - T) > REL_TOL * T:
         pts.append(float(T))
     return pts
 
 
-def cluster(points: Iterable[float], tol: float = CLUSTER_NS) -> list[float]:
+def cluster(points: Iterable[float], tol: float) -> list[float]:
     out: list[float] = []
     for p in sorted(points):
         if not out or p - out[-1] > tol:
@@ -41,7 +41,7 @@ def expected_calendar(T: float, dt: float, observables: Sequence[dict], default_
     pts = list(grid(T, dt))
     for ts in requested_times(observables, default_times).values():
         pts.extend(float(Fraction(t) * Fraction(T)) for t in ts)
-    return cluster(pts)
+    return cluster(pts, REL_TOL * T)
 
 
 def match_times(recorded: Sequence[float], requested: Sequence[float], tol: float = 1e-9) -> str | None:
